@@ -104,6 +104,49 @@ MUTATIONS = {
     'c17-never-release-self': ('labtech/lab.py',
         "        if len(self.task_to_pending_dependents[task]) == 0:\n            tasks_with_removable_results.add(task)\n",
         "", ['C17']),
+    # ---- C11
+    'c11-no-dead-process-detection': ('labtech/runners/process.py',
+        "            future.set_exception(TaskDiedError())\n            del self._running_id_to_future_and_process[future.id]\n",
+        "            pass\n", ['C11']),
+    'c11-complete-task-early-return-on-failure': ('labtech/lab.py',
+        "        self.type_to_active_tasks[type(task)].remove(task)\n        for dependent in self.task_to_pending_dependents[task]:\n",
+        "        self.type_to_active_tasks[type(task)].remove(task)\n        if result_meta is None:\n            return OrderedSet()\n        for dependent in self.task_to_pending_dependents[task]:\n", ['C11', 'C10']),
+    'c11-died-error-only-first': ('labtech/runners/process.py',
+        "        for future in dead_process_futures:\n            if future.done:\n                continue\n",
+        "        for future in dead_process_futures[:1]:\n            if future.done:\n                continue\n", ['C11']),
+    # ---- C12
+    'c12-cleanup-only-exception': ('labtech/cache.py',
+        "        except BaseException:\n            # Do not leave", "        except ValueError:\n            # Do not leave", ['C12', 'C14']),
+    'c12-cleanup-removed': ('labtech/cache.py',
+        "            storage.delete(task.cache_key)\n            raise\n", "            raise\n", ['C12']),
+    'c12-metadata-after-data-no-cleanup': ('labtech/cache.py',
+        "            self.save_result(storage, task, task_result.value)\n        except BaseException:",
+        "            self.save_result(storage, task, task_result.value)\n        except pickle.PicklingError:", ['C12']),
+    # ---- C13
+    'c13-data-into-other-dir': ('labtech/cache.py',
+        "        data_file = storage.file_handle(task.cache_key, self.RESULT_FILENAME, mode='wb')\n",
+        "        data_file = storage.file_handle(task.cache_key if len(pickle.dumps(result)) < 100000 else 'pickle__NA__overflow', self.RESULT_FILENAME, mode='wb')\n", ['C13', 'C06']),
+    # ---- C14
+    'c14-workers-do-not-ignore-sigint': ('labtech/runners/process.py',
+        "        signal.signal(signal.SIGINT, signal.SIG_IGN)\n", "        pass\n", ['C14']),
+    'c14-first-interrupt-stops': ('labtech/lab.py',
+        "                        runner.cancel()\n", "                        runner.stop()\n", ['C14']),
+    'c14-no-cancel': ('labtech/lab.py',
+        "                        runner.cancel()\n", "                        pass\n", ['C14']),
+    'c14-serial-swallows-interrupt': ('labtech/runners/serial.py',
+        "        except KeyboardInterrupt:\n            raise\n", "", ['C14']),
+    'c14-revert-prune': ('labtech/runners/process.py',
+        "            task = self.future_to_task.pop(future)\n", "            task = self.future_to_task[future]\n", ['C14', 'C11']),
+    'c14-revert-stop-cancel': ('labtech/runners/process.py',
+        "        self.executor.cancel()\n        self.executor.stop()\n", "        self.executor.stop()\n", ['C14']),
+    # ---- C19
+    'c19-revert-flush-clear': ('labtech/utils.py', "            self.bufs = []\n", "", ['C19']),
+    'c19-revert-second-drain': ('labtech/runners/process.py',
+        "        # records of the tasks that have just completed.\n        self._consume_log_queue()\n", "        # records of the tasks that have just completed.\n", ['C19']),
+    'c19-revert-exit-flush': ('labtech/runners/process.py',
+        "            sys.stdout.flush()\n            sys.stderr.flush()\n", "", ['C19']),
+    'c19-drop-whitespace-lines-too-eager': ('labtech/utils.py',
+        "        if not self.whitespace_only_re.fullmatch(buf):\n", "        if not self.whitespace_only_re.fullmatch(buf) and not buf.startswith('TOK-t1'):\n", ['C19']),
     # ---- C18
     'c18-drop-parent-check': ('labtech/storage.py',
         "    if key_path.parent != storage_path.resolve():\n", "    if False:\n", ['C18']),
